@@ -108,6 +108,22 @@ def check_arc(case):
                                 name, nm, bb[i], want[i], case["exp"][i][0], cf, uf, vf, t0, signed)})
         if not (bb[0] <= bb[2] and bb[1] <= bb[3]):
             dis.append({"clause": "Order", "detail": "%s: %r" % (name, bb)})
+    # the zero-extent arc on the same ellipse (sweep 0 at the start point): its box is that point
+    s0 = f(0.0)
+
+    def mk0():
+        return svg.Arc(P(*s0), P(*s0), P(*cf), P(cf[0] + uf[0], cf[1] + uf[1]), P(cf[0] + vf[0], cf[1] + vf[1]), 0)
+    for name, fn in (("zero-extent arc.bbox()", lambda: mk0().bbox()),
+                     ("Path(M, zero-extent arc).bbox()", lambda: svg.Path(svg.Move(None, P(*s0)), mk0()).bbox())):
+        try:
+            bb = fn()
+        except engine.CaseTimeout:
+            raise
+        except Exception as ex:
+            dis.append({"clause": "Raises", "detail": "%s raised %s: %s" % (name, type(ex).__name__, str(ex)[:60])})
+            continue
+        if bb is None or any(abs(bb[i] - s0[i % 2]) > 1e-9 * scale for i in range(4)):
+            dis.append({"clause": "ZeroExtentArc", "form": name, "detail": "%s = %r, the arc is the single point %r  [arc centre %s axes %s %s]" % (name, bb, s0, cf, uf, vf)})
     return dis
 
 
